@@ -255,6 +255,11 @@ def iocb_history(run, rng, nclients, nservers, nreq):
                 token += 1
                 si = rng.randrange(nservers)
                 servers[si].app.behaviour[token] = ("ack", rng.choice([0, 5, 50]), rng.choice([0, 0.3, 1.0, 2.0]))
+                if rng.random() < 0.06:
+                    # the peer answers with an acknowledgement nobody here can read: an outcome all the same, and the requests
+                    # queued behind it go on
+                    servers[si].app.behaviour[token] = ("unknown-ack", 0, rng.choice([0, 0.3]))
+                    run.count("requests_answered_with_an_unreadable_acknowledgement")
                 rq = c.cpt_request(servers[si].address, token, rng.choice([0, 5, 50]))
                 if rng.random() < 0.25:
                     # the application chooses the invoke id itself (0 is an id like any other); ids in use are left alone
@@ -351,8 +356,27 @@ def iocb_history(run, rng, nclients, nservers, nreq):
         if tok in responded and e["t"] + 1e-9 < responded[tok]:
             run.violation("iocb-completed-before-its-request-was-answered", w)
             return
+    # a listener that arrives after the outcome is told the outcome - it alone, the others have been told
+    late = []
+    for tok in rng.sample(sorted(reqs), min(len(reqs), 4)):
+        n_before = sum(1 for e in events if e["ev"] == "iocb-callback" and e["token"] == tok)
+        reqs[tok]["iocb"].add_callback(lambda iocb, tok=tok: late.append(tok))
+        CLOCK.settle()
+        n_after = sum(1 for e in events if e["ev"] == "iocb-callback" and e["token"] == tok)
+        run.count("late_listeners_added")
+        if n_after != n_before:
+            run.violation("iocb-callbacks-repeated-when-a-callback-is-added-after-completion", dict(wit, token=tok, calls_before=n_before, calls_after=n_after))
+            return
+        if late.count(tok) != 1:
+            run.violation("late-listener-not-told-the-outcome-once", dict(wit, token=tok, calls=late.count(tok)))
+            return
     if transaction_census():
-        run.violation("transactions-left-after-history", dict(wit, n=len(transaction_census())))
+        import gc
+        left = transaction_census()
+        run.violation("transactions-left-after-history", dict(wit, n=len(left), left=[
+            (type(x).__name__, x.state, x.invokeID, str(x.pdu_address), [type(r_).__name__ for r_ in gc.get_referrers(x)][:6]) for x in left[:3]],
+            unreadable=[t for t, r_ in reqs.items() if servers[r_["server"]].app.behaviour.get(t, ("",))[0] == "unknown-ack"][:5],
+            given_up_in_flight=abandoned_active))
         return
     for c in clients:
         if c.app.queue_by_address and not abandoned_active:
